@@ -1,8 +1,102 @@
 package rules
 
-import "verif/internal/eng"
+import (
+	"golang.org/x/tools/go/ssa"
+
+	"verif/internal/eng"
+)
+
+// ruleCheckPackGuards (C03): checkPackInner reports success only after the download
+// succeeded, the pack hash matched its name and the header decoded.
+func ruleCheckPackGuards(c *eng.Ctx) {
+	const rule = "checkpack-guards"
+	fn := c.NeedFn(rule, pkgRepo+".checkPackInner")
+	if fn == nil {
+		return
+	}
+	be := c.P.NamedType(pkgBackend + ".Backend")
+	var loads, lists, equals []ssa.CallInstruction
+	for _, call := range eng.Calls(fn) {
+		switch {
+		case eng.IsMethodOf(call, be, "Load"):
+			loads = append(loads, call)
+		case c.P.CalleeName(call) == pkgPack+".List":
+			lists = append(lists, call)
+		case c.P.CalleeName(call) == fnIDEqual && eng.IsParam(fn, "id")(eng.Arg(call, 0)):
+			equals = append(equals, call)
+		}
+	}
+	for _, r := range eng.Returns(fn) {
+		if !c.P.MayBeNil(eng.RetVal(r, 0)) {
+			continue
+		}
+		c.MustPass(rule, "checkPackInner:download-ok→success", eng.Entry(fn), r, eng.SuccessCut(loads...), "be.Load returned nil")
+		c.MustPass(rule, "checkPackInner:pack-hash-equal→success", eng.Entry(fn), r, eng.ResultCut(true, 0, equals...), "hash.Equal(id) is true")
+		c.MustPass(rule, "checkPackInner:header-listed→success", eng.Entry(fn), r, eng.SuccessCut(lists...), "pack.List returned nil")
+	}
+	// the hash compared is the streamed sha256 of the downloaded bytes
+	ok := false
+	for _, f := range c.P.Lits(fn) {
+		for _, idc := range c.P.CallsTo(f, fnIDFromH) {
+			for _, r := range eng.Origins(eng.Arg(idc, 0), nil) {
+				if call := eng.RootCall(r); call != nil && eng.MethodName(call) == "Sum" {
+					for _, hr := range eng.Origins(eng.Recv(call), nil) {
+						if hc := eng.RootCall(hr); hc != nil && c.P.CalleeName(hc) == pkgRepo+"/hashing.NewReader" && c.P.IsCallOf(eng.Arg(hc, 1), "crypto/sha256.New") {
+							ok = true
+						}
+					}
+				}
+			}
+		}
+	}
+	c.Check(ok, rule, "checkPackInner:hash-is-sha256-of-stream", fn.Pos(), "the compared pack hash is IDFromHash of a sha256 hashing.Reader over the download stream")
+	c.Floor(rule, 4, 4)
+}
 
 func init() {
+	register(&Property{
+		ID: "C03",
+		Explanation: "Decides necessary conditions of corruption reporting: (mac-before-decrypt) Key.Open decrypts and returns nil only after poly1305Verify succeeded; (open-error-used) at every Key.Open call site the error is examined and no nil-error return is reachable from a failed Open; (nil-only-after-hash) blob and file load paths return success only after the hash comparison; (accumulator) errors appended to the local error lists of checkPackInner, checker.checkTree, loadSnapshotTreeIDs and Checker.LoadIndex reach the result or a len()!=0 test before any success return; (checkpack-guards) checkPackInner succeeds only after download, sha256-of-stream == pack ID and header decode; (check-exit) in runCheck every nil-error return lies on the false edge of one errors-found flag, every error received from the three checker channels sets that flag on every path (sole exception: orphaned packs) and a non-empty LoadIndex error list forces failure. Not decided: that every byte flip is detected (strength of Poly1305/SHA-256, zstd framing).",
+		Assumptions: commonAssumptions,
+		Technique:   "static analysis: CFG edge cuts + path-sensitive flag/nil flow + error-accumulator discipline (go/ssa)",
+		AllConfigs:  true,
+		Run: func(c *eng.Ctx) {
+			ruleMacBeforeDecrypt(c)
+			ruleOpenErrorUsed(c)
+			ruleNilOnlyAfterHash(c)
+			ruleAccumulator(c, "accumulator", pkgRepo+".checkPackInner")
+			ruleAccumulator(c, "accumulator", "internal/checker.(*Checker).checkTree")
+			ruleAccumulator(c, "accumulator", "internal/checker.loadSnapshotTreeIDs")
+			ruleAccumulator(c, "accumulator", pkgRepo+".(*Checker).LoadIndex")
+			ruleCheckPackGuards(c)
+			ruleCheckExit(c, false)
+		},
+		Controls: []Control{
+			{Name: "ignore-tree-errors-in-check", File: "cmd/restic/cmd_check.go",
+				Old: "	for err := range errChan {\n		errorsFound = true\n		switch e := err.(type) {", New: "	for err := range errChan {\n		switch e := err.(type) {", Rule: "check-exit"},
+			{Name: "drop-errs-test-in-checkPack", File: "internal/repository/checker.go",
+				Old: "	if len(errs) > 0 {\n		return &ErrPackData{PackID: id, errs: errs}\n	}\n\n	return nil", New: "	if len(errs) > 1 {\n		return &ErrPackData{PackID: id, errs: errs}\n	}\n\n	return nil", Rule: "accumulator"},
+			{Name: "success-after-failed-open", File: "internal/repository/repository.go",
+				Old: "	plaintext, err := r.key.Open(ciphertext[:0], nonce, ciphertext, nil)\n	if err != nil {\n		return nil, err\n	}", New: "	plaintext, err := r.key.Open(ciphertext[:0], nonce, ciphertext, nil)\n	if err != nil && len(nonce) == 0 {\n		return nil, err\n	}", Rule: "open-error-used"},
+			{Name: "skip-pack-hash-compare", File: "internal/repository/checker.go",
+				Old: "	if !hash.Equal(id) {", New: "	if !hash.Equal(id) && size > 0 {", Rule: "checkpack-guards"},
+		},
+	})
+	register(&Property{
+		ID: "C15",
+		Explanation: "Decides the classification clause only: in runCheck the arms for ErrDuplicatePacks, ErrMixedPack and orphaned packs (exactly the states an interrupted backup, prune or repair may leave: duplicate index entries, old mixed packs, unindexed packs) neither set the errors-found flag nor increment summary.NumErrors on any path, both hint types have their own type-switch arm (they do not fall into the default error arm), and the success return is guarded by that flag. Not decided: that restic never produces any other inconsistency (that part is the ordering rules of C09/C11/C26).",
+		Assumptions: commonAssumptions,
+		Technique:   "static analysis: path-sensitive flag flow over the type-switch arms of runCheck (go/ssa)",
+		Run: func(c *eng.Ctx) {
+			ruleCheckExit(c, true)
+		},
+		Controls: []Control{
+			{Name: "mixed-pack-becomes-error", File: "cmd/restic/cmd_check.go",
+				Old: "			printer.S(\"%s\", hint.Error())\n			summary.HintPrune = true\n", New: "			printer.S(\"%s\", hint.Error())\n			summary.HintPrune = true\n			errorsFound = true\n", Rule: "hint-branches"},
+			{Name: "orphaned-pack-counts-as-error", File: "cmd/restic/cmd_check.go",
+				Old: "				orphanedPacks++\n", New: "				orphanedPacks++\n				summary.NumErrors++\n", Rule: "hint-branches"},
+		},
+	})
 	register(&Property{
 		ID: "C02",
 		Explanation: "Decides: (save-name-is-hash) at every Backend.Save site of package repository the handle name is ID.String() of restic.Hash applied to exactly the bytes wrapped by the reader (pack files: sha256 streamed over the same temporary file that is uploaded; config: constant zero ID only on the t==ConfigFile branch); (verify-before-store) SaveBlob/be.Save/header Write are reachable only through the success edge of verifyCiphertext/verifyUnpacked/verifyHeader on the same buffer, and the verifiers return nil only after the hash/bytes comparison (or the documented NoExtraVerify opt-out); (nil-only-after-hash) packBlobIterator.Next can leave Err nil only on paths through Hash(plaintext).Equal(entry.ID), the plaintext handed out is the hashed value, and LoadRaw returns a nil error only through id == Hash(buf) (config exempt); (load-sites) every backend read in package repository is one of the classified verifying load paths; (zero-chunk-agreement) the all-zero shortcut tests len and zero-prefix against the same chunker.MinSize that zeroChunk() hashes. Not decided: that SHA-256/zstd behave; stale-but-hash-correct data.",
